@@ -1039,11 +1039,12 @@ class Message(ABC):
         It may be initialized multiple times in a multi-threaded environment,
         but that won't affect the correctness.
         """
-        try:
-            return cls._betterproto_meta
-        except AttributeError:
+        # looked up in the class itself: a subclass that adds fields must not
+        # inherit the metadata of a base class that happened to be used first
+        meta = cls.__dict__.get("_betterproto_meta")
+        if meta is None:
             cls._betterproto_meta = meta = ProtoClassMetadata(cls)
-            return meta
+        return meta
 
     def dump(self, stream: "SupportsWrite[bytes]", delimit: bool = False) -> None:
         """
